@@ -48,9 +48,9 @@ func fileClash(names []string) bool {
 
 func init() {
 	fw.Register(&fw.Check{
-		ID:    "C11",
-		Level: "model_checking",
-		Rule: "exhaustive product on the real HTTP handler: EVERY subset of an 8-name universe (nested 'directories', names differing by characters that sort below '/') x prefix x delimiter (single and multi-character) x maxResults {1,2,3,1000} x store; every page chain is followed to its end and the concatenation is compared with the model listing (items, collapsed prefixes, order, no repeats across pages, page sizes, item metadata = metadata GET); plus missing bucket, malformed page tokens and maxResults values",
+		ID:          "C11",
+		Level:       "model_checking",
+		Rule:        "exhaustive product on the real HTTP handler: EVERY subset of an 8-name universe (nested 'directories', names differing by characters that sort below '/') x prefix x delimiter (single and multi-character) x maxResults {1,2,3,1000} x store; every page chain is followed to its end and the concatenation is compared with the model listing (items, collapsed prefixes, order, no repeats across pages, page sizes, item metadata = metadata GET); plus missing bucket, malformed page tokens and maxResults values",
 		Assumptions: []string{"file store: subsets containing a name that is both an object and a 'directory' of another object are skipped (not representable as files)"},
 		Run:         runC11,
 		Replay:      gcsReplay("C11", c11Tag),
